@@ -169,7 +169,7 @@ theorem readRaw_headerLines (h : Header α) (s : String) :
     funext t
     cases t <;> simp [headerRaw, hcomp]
 
-/-- the typed dictionary the reader builds from `headerRaw`, reshaping the matrix to `n × n`. -/
+/-- the typed dictionary the reader builds from `headerRaw` (matrix reshaped to `n × n`). -/
 def headerReadDict (h : Header α) (n : Nat) : Dict α := fun t =>
   match t with
   | .objectType => some (.raw [.word "Image"])
@@ -188,11 +188,9 @@ def headerReadDict (h : Header α) (n : Nat) : Dict α := fun t =>
   | _ => none
 
 
-theorem readDict_headerRaw (fix : Fix) (h : Header α) (s : String) (hs : ElemType.ofMetName s = some h.elementType)
-    (hn : h.ndims * h.ndims = fix.matrixDim h.ndims * fix.matrixDim h.ndims) :
-    readDict fix (headerRaw h s) = .ok (headerReadDict h (fix.matrixDim h.ndims)) := by
-  have hlen : (transposeFlat h.ndims h.direction).length = fix.matrixDim h.ndims * fix.matrixDim h.ndims := by
-    rw [transposeFlat_length, hn]
+theorem readDict_headerRaw (h : Header α) (s : String) (hs : ElemType.ofMetName s = some h.elementType) :
+    readDict (headerRaw h s) = .ok (headerReadDict h h.ndims) := by
+  have hlen : (transposeFlat h.ndims h.direction).length = h.ndims * h.ndims := transposeFlat_length _ _
   cases hcomp : h.compressed <;>
   · simp only [readDict, Tag.all, List.foldr, headerRaw, hcomp, readVal, Tag.rclass, toFloats_num, toInts_nat, hs,
       upper_True, upper_False, bind, Except.bind, pure, Except.pure, hlen, if_true, if_false, Bool.false_eq_true]
@@ -200,22 +198,18 @@ theorem readDict_headerRaw (fix : Fix) (h : Header α) (s : String) (hs : ElemTy
     funext t
     cases t <;> simp [headerReadDict, Dict.set, Dict.empty, hcomp]
 
-theorem readMeta_headerReadDict (fix : Fix) (h : Header α) (n : Nat) (hc : 1 ≤ h.channels)
-    (hcs : h.compressed = h.compressedSize.isSome) (hmulti : fix = .none → h.channels = 1) :
-    readMeta fix (headerReadDict h n) =
+theorem readMeta_headerReadDict (h : Header α) (n : Nat) (hc : 1 ≤ h.channels)
+    (hcs : h.compressed = h.compressedSize.isSome) :
+    readMeta (headerReadDict h n) =
       .ok { h.toRead with matrix := some (transposeFlat n (transposeFlat h.ndims h.direction)) } := by
   have hch : (if 1 < h.channels then h.channels else 1) = h.channels := by
     split <;> omega
-  have hm : ¬ (1 < h.channels ∧ fix = .none) := by
-    rintro ⟨h1, h2⟩; have := hmulti h2; omega
   cases hcomp : h.compressed <;> cases hsz : h.compressedSize <;> simp [hcomp, hsz] at hcs <;>
-    simp [readMeta, headerReadDict, Dict.getNat, Dict.getArr, Dict.getMat, Dict.getBool, hcomp, hsz, hm,
+    simp [readMeta, headerReadDict, Dict.getNat, Dict.getArr, Dict.getMat, Dict.getBool, hcomp, hsz,
       Header.toRead, Option.orElse] <;> exact hch
 
-/-- write then read, header level: the reader recovers exactly what the writer was given whenever
-    the reader reshapes `TransformMatrix` with the right dimension and accepts the channel count. -/
-theorem roundtrip_ok (fix : Fix) (h : Header α) (hWF : h.WF) (hn : fix.matrixDim h.ndims = h.ndims)
-    (hmulti : fix = .none → h.channels = 1) : roundtrip fix h = .ok h.toRead := by
+/-- write then read, header level: the reader recovers exactly what the writer was given. -/
+theorem roundtrip_ok (h : Header α) (hWF : h.WF) : roundtrip h = .ok h.toRead := by
   obtain ⟨_, hc, _, _, hdir, hcs⟩ := hWF
   obtain ⟨s, hs1, hs2⟩ := ElemType.metName_isSome h.elementType
   unfold roundtrip parse
@@ -223,9 +217,9 @@ theorem roundtrip_ok (fix : Fix) (h : Header α) (hWF : h.WF) (hn : fix.matrixDi
   simp only [bind, Except.bind]
   rw [readRaw_headerLines]
   simp only []
-  rw [readDict_headerRaw fix h s hs2 (by rw [hn])]
+  rw [readDict_headerRaw h s hs2]
   simp only []
-  rw [readMeta_headerReadDict fix h _ hc hcs hmulti, hn, transposeFlat_involutive _ _ hdir]
+  rw [readMeta_headerReadDict h _ hc hcs, transposeFlat_involutive _ _ hdir]
   rfl
 
 end Deepali.MetaIO
